@@ -361,6 +361,35 @@ Section MinTwoThirds.
   Qed.
 End MinTwoThirds.
 
+(** ================= F. the classical statements, and what is open ================= *)
+
+(** Deuermeyer, Friesen, Langston 1982: LPTmin >= 3/4 * OPTmin *)
+Definition lpt_min_ratio_34 : Prop :=
+  forall (A : Type) (valueof : A -> Z) (keep : bool) (k : nat) (items : list A) (v : Z),
+    (1 <= k)%nat -> Forall (fun x => 0 <= valueof x) items ->
+    Opt MaxSmallest k (map valueof items) v ->
+    3 * (- v) <= 4 * zmin (sums (greedy valueof keep k items)).
+
+Lemma greedy_min_nonneg {A} (valueof : A -> Z) keep k items : (1 <= k)%nat ->
+  Forall (fun x => 0 <= valueof x) items -> 0 <= zmin (sums (greedy valueof keep k items)).
+Proof.
+  intros Hk Hpos. rewrite greedy_sums_vgreedy.
+  pose proof (vgreedy_zmin_ge (sorted_values valueof items) (repeat 0 k)
+                ltac:(rewrite repeat_length; exact Hk) (sorted_values_nonneg valueof items Hpos)) as H.
+  rewrite zmin_repeat0 in H. exact H.
+Qed.
+
+(** the exact bound of Csirik, Kellerer, Woeginger implies the 3/4 bound *)
+Theorem lpt_min_ratio_implies_34 : lpt_min_ratio_statement -> lpt_min_ratio_34.
+Proof.
+  intros H A valueof keep k items v Hk Hpos Hopt.
+  specialize (H A valueof keep k items v Hk Hpos Hopt).
+  pose proof (greedy_min_nonneg valueof keep k items Hk Hpos) as HL.
+  set (L := zmin (sums (greedy valueof keep k items))) in *. set (K := Z.of_nat k) in *.
+  assert (HK : 1 <= K) by (unfold K; lia). nia.
+Qed.
+
 (* ==== FOOTER ==== *)
 Print Assumptions lpt_min_23_values.
 Print Assumptions lpt_min_ratio_23.
+Print Assumptions lpt_min_ratio_implies_34.
